@@ -9,6 +9,7 @@ import (
 	"strings"
 
 	"crverif/internal/an"
+	"crverif/internal/load"
 
 	"golang.org/x/tools/go/ssa"
 )
@@ -67,16 +68,21 @@ func c17Options(c *Ctx) {
 	}
 	rendered := map[string]bool{}
 	defaultPanics := false
-	for _, b := range po.Blocks {
-		for _, in := range b.Instrs {
-			if ta, ok := in.(*ssa.TypeAssert); ok && ta.CommaOk {
-				rendered[typeStr(ta.AssertedType)] = true
-			}
-			if _, ok := in.(*ssa.Panic); ok {
-				defaultPanics = true
-			}
-			if call, ok := in.(*ssa.Call); ok && an.CallIs(&call.Call, PkgCrhttp, "", "panicf") {
-				defaultPanics = true
+	// packOptions and the helpers it dispatches to (a method holding the type switch, per-kind helpers)
+	for fnr := range an.ModuleReach([]*ssa.Function{po}, func(f *ssa.Function) bool {
+		return load.InModule(f) && strings.HasPrefix(c.fname(f), "crhttp.") || strings.HasPrefix(c.fname(f), "(*crhttp.") || strings.HasPrefix(c.fname(f), "(crhttp.")
+	}, nil) {
+		for _, b := range fnr.Blocks {
+			for _, in := range b.Instrs {
+				if ta, ok := in.(*ssa.TypeAssert); ok && ta.CommaOk {
+					rendered[typeStr(ta.AssertedType)] = true
+				}
+				if _, ok := in.(*ssa.Panic); ok && fnr.Name() != "panicf" {
+					defaultPanics = true
+				}
+				if call, ok := in.(*ssa.Call); ok && an.CallIs(&call.Call, PkgCrhttp, "", "panicf") {
+					defaultPanics = true
+				}
 			}
 		}
 	}
